@@ -1,0 +1,15 @@
+//go:build verif
+
+package dataframe
+
+// VerifApplyGate, when set, is called by every row worker of Apply (axis 1)
+// immediately before (phase 0) and immediately after (phase 1) it sends the
+// result for a row. A verification harness uses it to force a completion order.
+// It exists only under the "verif" build tag.
+var VerifApplyGate func(row int, phase int)
+
+func applyGate(row int, phase int) {
+	if g := VerifApplyGate; g != nil {
+		g(row, phase)
+	}
+}
